@@ -48,6 +48,7 @@ class Cfg:
     fixed_shapes: Tuple[Tuple[Tuple[int, ...], ...], ...] = ()
     setup_call: bool = False  # every node is a setup node and the operation is DAG.setup(<selection>) instead of a call
     distinct_cp: bool = False  # assume pairwise distinct compound priorities; the C06 monitor is then strict
+    setup_first: bool = False  # the first node is a setup node when it has no dependency (an ordinary call, roots take no input)
     failed_before: bool = False  # the executor that runs may have had an earlier run in which a node failed (unmonitored)
     debug_leaf: bool = False  # one leaf may be a debug node, RUN_DEBUG_NODES on; the executed set is read off the executor's graph
     monitors: Tuple[str, ...] = ("C02", "C03", "C04", "C05", "C08", "C09", "C14", "C17", "C01")
@@ -470,9 +471,12 @@ def run_sched(cfg: Cfg, c: Ctx) -> Any:
         return fn
 
     # a node that takes the DAG input is neither a root of the id graph nor reachable by the debug rule
-    root_takes_input = sel[0] != "root" and dbg is None and not cfg.setup_call
+    root_takes_input = sel[0] != "root" and dbg is None and not cfg.setup_call and not cfg.setup_first
+    setup_node = labels[0] if (cfg.setup_first and not alldeps[labels[0]]) else None
+    if setup_node is not None:
+        c.cover("w_setup_node_in_call")
     xns = {l: xn(make_fn(l), priority=prio0[l], is_sequential=seq0[l], resource=Resource(res[l]), debug=(l == dbg),
-                 tag=("g", "t_" + l), setup=cfg.setup_call) for l in labels}
+                 tag=("g", "t_" + l), setup=(cfg.setup_call or l == setup_node)) for l in labels}
     callers: Dict[str, Any] = dict(xns)
     if wrapped is not None:
         # the node lives in a DAG of its own that the outer describing function calls
